@@ -4,6 +4,7 @@ CONSTANTS
  Clients = {1, 2}
  Creators = {}
  Subscribers = {}
+ OtherType = {}
  MaxOps = 1
  MaxSends = 4
  MaxServes = 1
